@@ -115,11 +115,22 @@ class C06(Property):
     def coeff(allow_zero_const=False, p_stream=(1, 3)):
       if W.chance("is-stream", *p_stream):
         ctr[0] += 1
+        if W.chance("periodic", 1, 8):
+          # a raw periodic Stream(v0, v1, ...) (not simulator-owned: no read
+          # accounting, values only), already advanced by some items when
+          # the filter gets it
+          return ["p", ctr[0], W.span("period", 1, 4), W.choose("adv", 6)]
         how = W.weighted("how", [(6, None), (1, "hub1"), (1, "raw")])
         if how == "raw" and shape != "single":
           how = None    # a bare iterator cannot be copied: no algebra on it
         return ["s", ctr[0]] if how is None else ["s", ctr[0], how]
       c = W.pick("const", [1, -1, 2, 3, -2, 5])
+      if W.chance("control-stream", 1, 14):
+        # a ControlStream object (a Stream subclass) as the coefficient,
+        # possibly shaped in place by map() / limit() before it is handed
+        # over: [value, length or None, mapped]
+        return ["k", c, W.pick("ktimes", [None, None, 0, 1, 3, 6, 10]),
+                bool(W.choose("kmapped", 2))]
       if W.chance("finite-constant-stream", 1, 12):
         # a constant given as a FINITE constant stream, itertools.repeat
         return ["r", c, W.choose("times", 11)]
@@ -438,6 +449,18 @@ class C06(Property):
       if c[0] == "r":
         import itertools
         return Stream(itertools.repeat(Fraction(c[1]), c[2]))
+      if c[0] == "k":
+        cs = self.ls.ControlStream(Fraction(c[1]))
+        if c[3]:
+          cs.map(lambda v: v * 3)
+        if c[2] is not None:
+          cs.limit(c[2])
+        return cs
+      if c[0] == "p":
+        per = Stream(*[src_value(c[1], j) for j in range(c[2])])
+        if c[3]:
+          per.take(c[3])
+        return per
       if const_as_stream:
         flip[0] += 1
         if flip[0] % 2 == 0:
@@ -533,6 +556,10 @@ class C06(Property):
   def spec_polys(self, t, n):
     """ (num, den) of a tree at sample n straight from the specification. """
     def cv(c):
+      if c[0] == "p":
+        return src_value(c[1], (n + c[3]) % c[2])
+      if c[0] == "k":
+        return Fraction(c[1]) * (3 if c[3] else 1)
       return src_value(c[1], n) if c[0] in ("s", "h") else Fraction(c[1])
     # (a finite constant stream ["r", value, times] has its constant value
     # for as long as it lasts; its length enters the output length)
@@ -620,7 +647,7 @@ class C06(Property):
     out = []
 
     def visit(c):
-      if c[0] == "r":
+      if c[0] == "r" or (c[0] == "k" and c[2] is not None):
         out.append(c[2])
 
     def rec(t):
